@@ -71,6 +71,10 @@ def configs(tier):
         for method in ("newton", "bregman"):
             for mob in ("CELL_BASED", "CELL_BASED_ARITHMETIC", "CELL_BASED_HARMONIC", "SUBCELL_BASED", "FACE_BASED"):
                 out.append(dict(kind="thin_solver", shape=shape, method=method, mobility=mob, draw=0))
+    # the unified front-end called twice in one process on images of equal shape but other physical size
+    for shape in ([[3, 1], [1, 3]] if q else [[3], [3, 1], [1, 3], [1, 3, 1]]):
+        for method in ("newton", "bregman"):
+            out.append(dict(kind="frontend_history", shape=shape, method=method))
     # identical distributions through the real iterations (the mass difference cancels symbolically)
     for shape in ([[3], [2, 2]] if q else [[3], [2, 2], [3, 2], [2, 1, 2]]):
         for method in ("newton", "bregman"):
@@ -79,7 +83,7 @@ def configs(tier):
 
 
 def validate_filter(cfg):
-    return cfg["kind"] in ("laws", "moment", "unique", "dispatch", "mobility", "identical", "thin_solver")
+    return cfg["kind"] in ("laws", "moment", "unique", "dispatch", "mobility", "identical", "thin_solver", "frontend_history")
 
 
 def validate_always(cfg):
@@ -265,6 +269,54 @@ def body_thin_solver(cfg, darsia):
     S.observe("dist", dist)
 
 
+def body_frontend_history(cfg, darsia):
+    """wasserstein_distance(...) on a thin grid, after a call on images of the same shape but other extents:
+    the value is the cost of the unique flux for the extents of THIS call"""
+    from symx.core import ENGINE
+
+    if S.symbolic():
+        ENGINE.const_mode = True
+    shape = tuple(cfg["shape"])
+    dim = len(shape)
+    nc = int(np.prod(shape))
+    ax = [m for m in range(dim) if shape[m] > 1][0]
+    dt = object if S.instrumented() else float
+
+    def run(dims, vals1, vals2):
+        def img(vals):
+            a = np.empty(shape, dtype=dt)
+            for i, idx in enumerate(np.ndindex(*shape)):
+                a[idx] = S.const(f"{vals[i]}/8")
+            return darsia.Image(a, dimensions=list(dims), space_dim=dim, scalar=True)
+
+        import darsia.measure.wasserstein as ws
+
+        d = darsia.wasserstein_distance(img(vals1), img(vals2), method=cfg["method"], options={"formulation": "full", "linear_solver": "direct", "num_iter": 3, "l1_mode": ws.L1Mode.CONSTANT_CELL_PROJECTION})
+        h = [dims[m] / shape[m] for m in range(dim)]
+        vol = float(np.prod(h))
+        # cells along the only non-trivial axis; np.ndindex order is C order, which is fine for one non-trivial axis
+        f = [(a_ - b_) / 8 for a_, b_ in zip(vals1, vals2)]
+        area = vol / h[ax]
+        u, acc = [], 0.0
+        for j in range(nc - 1):
+            acc += f[j]
+            u.append(acc * vol / area)
+        cost = 0.0
+        for j in range(nc):
+            ul = u[j - 1] if j > 0 else 0.0
+            ur = u[j] if j < nc - 1 else 0.0
+            cost += vol * abs(0.5 * (ul + ur))
+        return d, cost
+
+    m1, m2 = [9, 4, 11], [6, 10, 8]  # equal totals
+    d0, c0 = run([1.5, 0.5, 2.0][:dim], m1, m2)
+    d1, c1 = run([3.0, 0.25, 0.5][:dim], m2[::-1], m1)
+    eps = S.const(1e-9)
+    S.claim("first_frontend_call_returns_the_cost_of_the_unique_flux", S.and_(S.le(d0 - S.const(abs(c0)), eps), S.le(S.const(abs(c0)) - d0, eps)))
+    S.claim("later_frontend_call_uses_the_geometry_of_its_own_images", S.and_(S.le(d1 - S.const(abs(c1)), eps), S.le(S.const(abs(c1)) - d1, eps)))
+    S.observe("d", [d0, d1])
+
+
 def body_identical(cfg, darsia):
     """d(m, m) = 0 through the real Newton / Bregman iteration, for every mass distribution m"""
     from symx.core import ENGINE
@@ -293,6 +345,8 @@ def body(cfg):
         return body_identical(cfg, darsia)
     if k == "thin_solver":
         return body_thin_solver(cfg, darsia)
+    if k == "frontend_history":
+        return body_frontend_history(cfg, darsia)
     if k == "norm_lemmas":
         return body_lemmas(cfg)
     if k == "dispatch":
